@@ -13,6 +13,8 @@ lines are text that belongs to the most recent text-taking directive.
     @@start                              text inserted right after the body `{`
     @@after <anchor> [@@k=<n>|last]      text inserted after the line containing <anchor>
     @@before <anchor> [@@k=<n>|last]     text inserted before the line containing <anchor>
+    @@closure <k>                        annotates the k-th closure `|x| BODY` of the function: first text line = typed parameters
+                                         (replaces `x`), remaining lines = `-> (r: T) requires .. ensures ..`; BODY is wrapped in braces
     @@lettype <var> <type>               adds a type ascription to `let [mut] <var> = ..` (rustc rejects a wrong one; no semantic effect)
     @@end                                text inserted before the last code line of the body (the tail expression, descending
                                          into trailing blocks); use only when that line is a simple expression
@@ -46,6 +48,7 @@ class FnSpec:
         self.loops = {}           # k -> [(text, origin)]
         self.loopnames = {}       # k -> ghost iterator name (Verus `for x in NAME: expr`)
         self.lettypes = []        # (var, type): type ascription added to `let [mut] var = ..` (annotation only)
+        self.closures = {}        # k -> [(text, origin)]: first line = typed parameter list, rest = `-> (r: T) requires .. ensures ..`
         self.origin = None
         self.used = False
 
@@ -154,6 +157,9 @@ def parse(path, text=None, sc=None):
                 arg = arg[:m.start()]
             sink = []
             cur_fn.inserts.append((d, arg.strip(), k, sink, origin))
+        elif d == 'closure':
+            sink = []
+            cur_fn.closures[int(arg)] = sink
         elif d == 'lettype':
             v, _, t = arg.partition(' ')
             cur_fn.lettypes.append((v.strip(), t.strip()))
